@@ -36,7 +36,7 @@ def src_hash():
     for f in sorted(glob.glob(os.path.join(SRC, '*.cpp')) + glob.glob(os.path.join(SRC, '*.h')) + glob.glob(os.path.join(REPO, 'src/Vector/*.h'))):
         h.update(os.path.basename(f).encode())
         h.update(open(f, 'rb').read())
-    for f in sorted(glob.glob(os.path.join(VERIF, 'harness/inc/Vector/BLF/*'))):
+    for f in sorted(glob.glob(os.path.join(VERIF, 'harness/inc/Vector/BLF/*')) + glob.glob(os.path.join(VERIF, 'harness/sched/*'))):
         h.update(open(f, 'rb').read())
     return h.hexdigest()[:16]
 
@@ -161,7 +161,7 @@ def build_lib(variant='asan'):
     elif variant == 'tsan':
         flags += ['-fsanitize=thread']
     elif variant == 'sched':
-        flags += SAN + ['-include', os.path.join(VERIF, 'harness/sched/shim.h')]
+        flags += SAN + ['-DVERIF_SCHED_SHIM', '-include', os.path.join(VERIF, 'harness/sched/shim.h')]
     elif variant == 'plain':
         pass
     od = os.path.join(d, 'obj_' + variant)
@@ -204,7 +204,7 @@ def build_harness(name, variant='asan', extra_src=(), extra_flags=()):
     if variant == 'tsan':
         flags += ['-fsanitize=thread']
     if variant == 'sched':
-        flags += ['-include', os.path.join(VERIF, 'harness/sched/shim.h')]
+        flags += ['-DVERIF_SCHED_SHIM', '-include', os.path.join(VERIF, 'harness/sched/shim.h')]
     flags = [f for f in flags if f != '-O1'] + ['-O0']
     rc, out = run(['g++'] + flags + list(extra_flags) + INC + ['-I' + BUILD] + srcs + [lib, '-lz', '-lpthread', '-o', exe])
     if rc != 0:
